@@ -13,7 +13,7 @@
      effv       r.E(id, v, 0)
      shadow     v := v + 100; _ = v          (only in the body of a `:=` range loop)
      ifbrk / ifcnt / ifret                    if r.T(id) { break | continue | return }
-     range(it, tok, body)                     for v := / = range itN { body } *)
+     range(it, tok, body)                     for v := / = range itN { body },  for range itN { body },  for _ = range itN { body } *)
 EXTENDS SrcSyntax, Json
 CONSTANTS MaxSize, TapeLen, Budget
 
@@ -25,6 +25,8 @@ D3 == <<[k |-> "if", init |-> None, c |-> [k |-> "t", id |-> 92], a |-> <<Y([k |
 D4 == <<[k |-> "if", init |-> None, c |-> [k |-> "t", id |-> 93],
          a |-> <<YF(4, [k |-> "add", n |-> "a", d |-> 1]), Y(VarA), YF(4, [k |-> "add", n |-> "a", d |-> 1])>>, b |-> <<>>]>>
 
+\* loop headers: for v := range it / for v = range it / for range it / for _ = range it
+Toks == {"def", "asg", "none", "blank"}
 Pulls == {[k |-> "pull", it |-> i, id |-> 0] : i \in 1..2}
 Guards == {[k |-> g, id |-> 0] : g \in {"ifbrk", "ifcnt", "ifret"}}
 \* table of consumer blocks by size: level n from the levels below (inR: inside a range body)
@@ -32,11 +34,11 @@ MLevel(tab, n) ==
   LET B(m, inR) == tab[m + 1][inR]
       S(inR) == IF n = 1 THEN Pulls \cup {[k |-> "effv", id |-> 0]} \cup (IF inR = "r" THEN Guards ELSE {})
                 ELSE {[k |-> "range", it |-> i, tok |-> t, sh |-> sh, body |-> b] :
-                        i \in 1..2, t \in {"def", "asg"}, sh \in BOOLEAN, b \in B(n - 1, "r")}
+                        i \in 1..2, t \in Toks, sh \in BOOLEAN, b \in B(n - 1, "r")}
       SS(m, inR) == IF m = n THEN S(inR) ELSE
                     IF m = 1 THEN Pulls \cup {[k |-> "effv", id |-> 0]} \cup (IF inR = "r" THEN Guards ELSE {})
                     ELSE {[k |-> "range", it |-> i, tok |-> t, sh |-> sh, body |-> b] :
-                            i \in 1..2, t \in {"def", "asg"}, sh \in BOOLEAN, b \in B(m - 1, "r")} IN
+                            i \in 1..2, t \in Toks, sh \in BOOLEAN, b \in B(m - 1, "r")} IN
   [inR \in {"r", "f"} |-> IF n = 0 THEN {<<>>}
                           ELSE UNION {{<<s>> \o r : s \in SS(m, inR), r \in B(n - m, inR)} : m \in 1..n}]
 RECURSIVE BuildM(_, _)
@@ -86,8 +88,9 @@ RangeLoop(s, w0, e) ==
   IF Panicked(r.w) THEN MR("panic", r.w, e)
   ELSE IF ~r.ok THEN MR("fall", r.w, e)
   ELSE LET cur == r.w.cos[s.it].cur IN
-       IF s.tok = "asg" THEN
-         LET b == ExecM(s.body, r.w, AssignV(e, cur)) IN
+       IF s.tok \in {"asg", "none", "blank"} THEN
+         \* without a loop variable the element is dropped: the body sees the variables in scope unchanged
+         LET b == ExecM(s.body, r.w, IF s.tok = "asg" THEN AssignV(e, cur) ELSE e) IN
          CASE b.sig \in {"fall", "cnt"} -> RangeLoop(s, b.w, b.e)
            [] b.sig = "brk" -> MR("fall", b.w, b.e)
            [] OTHER -> b
